@@ -577,7 +577,8 @@ func genC07(r *Rng, tier string) []Case {
 			// UTF-8; 6 attributes naming another key; 7 attributes without the key; 8 a 31/33-byte key
 			// 9 attributes naming a NEAR-MISS key: one byte differs in its case bit (where it is an ASCII
 			// letter), in bit 0, or one byte >= 0x80 is replaced by another (both invalid UTF-8)
-			kind := r.Intn(10)
+			// 10 the strategy returns an EMPTY signature and no error; 11 a signature cut to 63 bytes
+			kind := r.Intn(12)
 			if mostlyGood && r.Chance(3, 4) {
 				kind = 0
 			}
@@ -638,12 +639,24 @@ func genC07(r *Rng, tier string) []Case {
 				sig = append(append([]byte{}, sig...), pad...)
 				stab = L(L(B(dtbs), B(sig)))
 			}
+			var padSx Sx
+			trimmed := kind == 10 || kind == 11
+			if trimmed {
+				n := map[int]int{10: 1, 11: 64}[kind]
+				sig = append([]byte{}, sig[:n-1]...)
+				stab = L(L(B(dtbs), B(sig)))
+				padSx = L(Sym("trim"), Zi(int64(n)))
+			}
 			vtab := L(L(B(recorded), B(dtbs), B(sig), Bool(len(recorded) == ed25519.PublicKeySize && ed25519.Verify(ed25519.PublicKey(recorded), dtbs, sig))))
 			which := int64(r.Intn(2))
 			if mostlyGood {
 				which = int64(s % 2)
 			}
-			atts = append(atts, L(B(recorded), attrsSx(attrs), stab, vtab, seedSx, B(pad), Zi(which)))
+			if trimmed {
+				atts = append(atts, L(B(recorded), attrsSx(attrs), stab, vtab, seedSx, padSx, Zi(which)))
+			} else {
+				atts = append(atts, L(B(recorded), attrsSx(attrs), stab, vtab, seedSx, B(pad), Zi(which)))
+			}
 			if kind < 2 {
 				stack = append([]ibSig{{attrs, sig}}, stack...)
 			}
@@ -699,7 +712,16 @@ func genC07(r *Rng, tier string) []Case {
 	return cs
 }
 
+func genC06resign(r *Rng, tier string) []Case {
+	cs := []Case{}
+	for i := 0; i < 6; i++ {
+		cs = append(cs, Case{"bsig_resign", []Sx{Sym(string(bverList()[i%2])), Zi(int64(i))}})
+	}
+	return cs
+}
+
 func init() {
+	regGen("C06", genC06resign)
 	regGen("C06", genC06)
 	regGen("C07", genC07)
 }
